@@ -78,6 +78,8 @@ type recorder struct {
 	lastStoreOwedReorg bool
 	extra              []*fsub // subscribers that come and go (churn.go)
 	plugin             []pluginCall
+	returned           bool                                    // Run of the current instance has returned (no new instance yet)
+	afterReturn        string                                  // first activity of the synchroniser seen while `returned`
 	checkStored        func(num uint64, hash felt.Felt) string // "" = content equals the valid block
 }
 
@@ -85,6 +87,16 @@ func newRecorder() *recorder {
 	r := &recorder{}
 	r.cond = sync.NewCond(&r.mu)
 	return r
+}
+
+// active notes an activity of the synchroniser (a fetch, a listener callback, a commit); after
+// Run has returned there must be none.
+func (r *recorder) active(what string) {
+	r.mu.Lock()
+	if r.returned && r.afterReturn == "" {
+		r.afterReturn = what
+	}
+	r.mu.Unlock()
 }
 
 func (r *recorder) add(e entry) {
@@ -129,6 +141,9 @@ func (r *recorder) onCommit(inner db.KeyValueReader) {
 	defer r.mu.Unlock()
 	if !r.enabled {
 		return
+	}
+	if r.returned && r.afterReturn == "" {
+		r.afterReturn = "a database commit"
 	}
 	n := len(r.chain)
 	switch {
